@@ -95,10 +95,26 @@ def fresh_config(**kw):
     return beacon.BeaconConfig(RC.http_block(**kw))
 
 
+def leading_zero_ids(n):
+    """Even beacon ids whose 16 session-seed bytes (random.seed(id ^ 0xACCE55ED); getrandbits(128)) begin with 00."""
+    out, bid = [], 0
+    state = random.getstate()
+    try:
+        while len(out) < n and bid < 20000:
+            random.seed(bid ^ 0xACCE55ED)
+            if random.getrandbits(128) >> 120 == 0:
+                out.append(bid)
+            bid += 2
+    finally:
+        random.setstate(state)
+    return out
+
+
 def chunk_ids(chunk, acc):
     from dissect.cobaltstrike.client import HttpBeaconClient
 
-    ids = list(range(-4, 5)) + list(range(2**31 - 3, 2**31 + 4)) + list(range(2**32 - 3, 2**32 + 4)) + [2**33, 2**33 + 6, -(2**31), -(2**31) - 2, 1234, 1235]
+    ids = list(range(-4, 5)) + list(range(2**31 - 3, 2**31 + 4)) + list(range(2**32 - 3, 2**32 + 4)) + [2**33, 2**33 + 6, -(2**31), -(2**31) - 2, 1234, 1235, 2**32 + 1234, 2**32 + 1235]
+    ids += leading_zero_ids(3)
     cfg = fresh_config()
     for bid in ids:
         acc.states += 1
@@ -126,6 +142,22 @@ def chunk_ids(chunk, acc):
         acc.case(bid, nontrivial=True, outcome=str(keys[0])[:60])
         if keys[0] != keys[1]:
             acc.fail("C19/id/keys-not-stable-for-same-id", {"kind": "id", "beacon_id": bid}, str(keys[0])[:100], str(keys[1])[:100])
+    # session keys are a function of the id that is presented: every requested id that normalises to the same
+    # presented id yields the same keys
+    by_presented = {}
+    for bid in ids:
+        with Seams():
+            cl = HttpBeaconClient()
+            res = call(cl.run, cfg, dry_run=True, beacon_id=bid, user="u", computer="c", process="p")
+        if isinstance(res, str):
+            continue
+        acc.transitions += 1
+        first = by_presented.setdefault(cl.beacon_id, (bid, cl.aes_rand, cl.aes_key))
+        acc.case(("presented", bid), outcome=cl.beacon_id)
+        if (cl.aes_rand, cl.aes_key) != first[1:]:
+            acc.fail("C19/id/keys-differ-for-the-same-presented-id", {"kind": "id", "beacon_id": bid, "same_presented_id_as": first[0]}, {"presented": cl.beacon_id, "aes_rand": first[1].hex()}, {"aes_rand": cl.aes_rand.hex()})
+        if len(cl.aes_rand) != 16:
+            acc.fail("C19/id/aes_rand-not-16-bytes", {"kind": "id", "beacon_id": bid}, 16, len(cl.aes_rand))
     # two different accepted ids never share session keys
     seen = {}
     for bid in (0, 2, 4, 1234, 2**31 - 2):
